@@ -1,0 +1,53 @@
+// This Source Code Form is subject to the terms of the Mozilla Public
+// License, v. 2.0. If a copy of the MPL was not distributed with this
+// file, You can obtain one at http://mozilla.org/MPL/2.0/.
+
+//go:build verif
+
+package client
+
+// Contracts for the deductive verifier in /verif (govc). Comment-only file: it
+// adds no code. Lines starting with //@ are parsed by govc; see /verif/DESIGN.md.
+
+// C13: re-establishing a remote watch after a transport failure. watchAdapter$2 is the recvMessage
+// closure of (*Adapter).watchAdapter; cli, lastBookmark, backoff and watchRequest are the variables it
+// captures. A watch is re-established only from the bookmark of the last event received, with every
+// bootstrap/tail option cleared; without a bookmark, or with retries disabled, the transport error is
+// returned; a server that rejects the bookmark ends the watch with the invalid-bookmark class.
+//@ func (*Adapter).watchAdapter$2
+//@   props C13
+//@   requires [wired] adapter != nil && adapter.client != nil && adapter.options.RetryLogger != nil && cli != nil && ctx != nil &&
+//@     backoff != nil && watchRequest != nil && watchRequest.Options != nil
+//@   at Watch #1
+//@     assert [resume-from-last-bookmark] lastBookmark != nil && watchRequest.Options.StartFromBookmark == lastBookmark
+//@     assert [resume-without-bootstrap] !watchRequest.Options.BootstrapContents && !watchRequest.Options.BootstrapBookmark && watchRequest.Options.TailEvents == 0
+//@     assert [retries-enabled] !adapter.options.DisableWatchRetry
+// assumptions about the environment: a context whose Done channel fired reports an error; a decoded
+// WatchResponse has no nil entries in its repeated event field (protobuf decoder)
+// (call names are matched by substring and ordered by position: "Err" also matches fmt.Errorf and zap.Error,
+// the third and fourth such calls of the closure)
+//@   at Err #2
+//@     assume_result [err-after-check] result != nil
+//@   at Err #5
+//@     assume_result [err-after-done] result != nil
+//@   at Recv #1
+//@     assume_result [decoded-message] result1 == nil ==> (forall i int :: 0 <= i && i < len(result0.Event) ==> result0.Event[i] != nil)
+//@   at Recv #3
+//@     assume_result [decoded-message] result1 == nil ==> (forall i int :: 0 <= i && i < len(result0.Event) ==> result0.Event[i] != nil)
+//@   ensures [message-or-error] result1 == nil ==> result0 != nil && (forall i int :: 0 <= i && i < len(result0.Event) ==> result0.Event[i] != nil)
+//@   loop #1
+//@     invariant [retry-state] lastBookmark != nil && !adapter.options.DisableWatchRetry && adapter != nil && adapter.client != nil &&
+//@       adapter.options.RetryLogger != nil && ctx != nil && backoff != nil && watchRequest != nil && watchRequest.Options != nil && err != nil
+//@
+// The delivery loop: the bookmark remembered for a later resume is the bookmark of the last event
+// converted so far (of this or an earlier message), and events are forwarded in message order.
+//@ func (*Adapter).watchAdapter$1
+//@   props C13
+//@   requires watchRequest != nil && ctx != nil
+//@
+//@ func (*Adapter).watchAdapter
+//@   props C13
+//@   requires [wired] adapter != nil && adapter.client != nil && adapter.options.RetryLogger != nil && cli != nil && ctx != nil &&
+//@     watchRequest != nil && watchRequest.Options != nil
+//@   loop #2
+//@     invariant [last-bookmark-tracks-last-event] len(events) > 0 ==> lastBookmark == events[len(events) - 1].Bookmark
